@@ -1,5 +1,6 @@
 import TarpcModel.Server.Run
 import TarpcModel.Lemmas.DelayQFacts
+import TarpcModel.Lemmas.ServerExpire
 /-!
 Control-flow facts about the server model (`Server/Model.lean`): frame lemmas for the primitive
 updates, a staged presentation of `basePollNext` (one iteration = `bpStep`), generic
@@ -289,10 +290,43 @@ frames cancelRequest (s : St) (id : Nat) : (cancelRequest s id).1 ~ s =>
   t rqWaiters rqAssigned rqAvail nextVis
   by (unfold cancelRequest; split <;> simp)
 
-frames pollExpired (s : St) (now : Nat) : (pollExpired s now).1 ~ s =>
-  sidx limit ensureLoop throttleAfterRead cancelQ cancelRxWaker respQ readFused done dropped poisoned
+/-! #### `poll_expired`: the re-arm, one iteration, the loop (`Lemmas/ServerExpire.lean`) -/
+
+frames expireStep (s : St) (now : Nat) : (expireStep s now).1 ~ s =>
+  sidx limit ensureLoop throttleAfterRead cancelQ cancelRxWaker respQ readFused done dropped
   t rqWaiters rqAssigned rqAvail nextVis
-  by (unfold pollExpired; split; rfl; split; (simp only; split <;> simp); rfl; rfl)
+  by (have h := expireStep_shape s now; revert h; generalize expireStep s now = p; intro h; obtain ⟨s', r⟩ := p;
+      dsimp only at h ⊢; cases h <;> (try simp) <;> (rename_i hr; have := rearm_frame hr; cases this; assumption))
+
+/-- the fields `poll_expired` never touches -/
+structure ExpFrame (s s' : St) : Prop where
+  sidx : s'.sidx = s.sidx
+  limit : s'.limit = s.limit
+  ensureLoop : s'.ensureLoop = s.ensureLoop
+  throttleAfterRead : s'.throttleAfterRead = s.throttleAfterRead
+  cancelQ : s'.cancelQ = s.cancelQ
+  cancelRxWaker : s'.cancelRxWaker = s.cancelRxWaker
+  respQ : s'.respQ = s.respQ
+  readFused : s'.readFused = s.readFused
+  done : s'.done = s.done
+  dropped : s'.dropped = s.dropped
+  t : s'.t = s.t
+  rqWaiters : s'.rqWaiters = s.rqWaiters
+  rqAssigned : s'.rqAssigned = s.rqAssigned
+  rqAvail : s'.rqAvail = s.rqAvail
+  nextVis : s'.nextVis = s.nextVis
+
+theorem pollExpired_frame (s : St) (now : Nat) : ExpFrame s (pollExpired s now).1 := by
+  refine pollExpired_ind (P := ExpFrame s) now (fun s1 h => ?_) (fun s1 h => ?_) s ?_
+  · obtain ⟨h0, h1, h2, h3, h4, h5, h6, h7, h8, h9, h10, h11, h12, h13, h14⟩ := h
+    constructor <;> simp [*]
+  · obtain ⟨h0, h1, h2, h3, h4, h5, h6, h7, h8, h9, h10, h11, h12, h13, h14⟩ := h
+    constructor <;> simp [*]
+  · constructor <;> rfl
+
+frames pollExpired (s : St) (now : Nat) : (pollExpired s now).1 ~ s =>
+  sidx limit ensureLoop throttleAfterRead cancelQ cancelRxWaker respQ readFused done dropped t rqWaiters rqAssigned rqAvail nextVis
+  by (have h := pollExpired_frame s now; cases h; assumption)
 
 frames startRequest (s : St) (now id d : Nat) (tr : Trace) (b : Nat) : (startRequest s now id d tr b).1 ~ s =>
   sidx limit ensureLoop throttleAfterRead cancelQ cancelRxWaker respQ readFused done dropped
@@ -1496,15 +1530,172 @@ theorem NS_cancelRequest {s : St} (id : Nat) (h : NS s) : NS (cancelRequest s id
   · exact h
   · exact NS_removeTimer _ (NS_abortExec _ (NS_of_obs h rfl))
 
+theorem NS_rearm {s s2 : St} {now : Nat} {en : SEntry} (hr : rearm s now en = some s2) (h : NS s) : NS s2 := by
+  rcases rearm_cases s now en with ⟨_, he⟩ | ⟨q, key, w, _, he⟩ <;> rw [he] at hr <;> cases hr
+  cases w
+  · exact NS_of_obs h rfl
+  · exact NS_of_obs (s := wakeServer s) (NS_wakeServer h) rfl
+
+theorem NS_expireStep {s : St} (now : Nat) (h : NS s) : NS (expireStep s now).1 := by
+  have hs := expireStep_shape s now
+  revert hs; generalize expireStep s now = p; intro hs
+  obtain ⟨s', r⟩ := p
+  dsimp only at hs ⊢
+  cases hs with
+  | idleNone q hp => exact NS_of_obs h rfl
+  | idlePending q hp => exact NS_of_obs h rfl
+  | orphan q e hp hf => exact NS_of_obs h rfl
+  | abort q e en hp hf h0 => exact NS_abortExec _ (NS_of_obs h rfl)
+  | rearmed q e en s2 hp hf h0 hr => exact NS_rearm hr (NS_of_obs h rfl)
+  | panicked q e en hp hf h0 hr => exact NS_emit (NS_of_obs h rfl) (by simp)
+
+/-! #### the loop of `poll_expired` never runs out of fuel: every `continue` uses up a re-arm -/
+
+/-- the re-arms the tracked entries still have in them -/
+def rearmBudget (s : St) : Nat := (s.inflight.map (fun en => rearmSteps en.remainder)).sum
+
+theorem expireFuel_eq (s : St) : expireFuel s = rearmBudget s + 1 := rfl
+
+theorem rearmSteps_le (r : Nat) : rearmSteps (r - clampTimeout r) ≤ rearmSteps r := by
+  unfold rearmSteps clampTimeout
+  generalize Gen.serverTimerClampSecs = k
+  by_cases hk : k = 0
+  · subst hk; simp
+  · have hk' : (k == 0) = false := by simpa using hk
+    simp only [hk', Bool.false_eq_true, if_false]
+    exact Nat.div_le_div_right (by omega)
+
+theorem rearmSteps_lt (r : Nat) (hr : r ≠ 0) : rearmSteps (r - clampTimeout r) < rearmSteps r := by
+  unfold rearmSteps clampTimeout
+  generalize Gen.serverTimerClampSecs = k
+  by_cases hk : k = 0
+  · subst hk; simp [hr]
+  · have hk' : (k == 0) = false := by simpa using hk
+    simp only [hk', Bool.false_eq_true, if_false]
+    generalize hc : k * 1000000000 = c
+    have hcpos : 0 < c := by omega
+    by_cases hle : r ≤ c
+    · have h1 : r - min r c + c - 1 = c - 1 := by rw [Nat.min_eq_left hle]; omega
+      rw [h1, Nat.div_eq_of_lt (by omega)]
+      exact Nat.div_pos (by omega) hcpos
+    · have h1 : r - min r c + c - 1 = r - 1 := by rw [Nat.min_eq_right (by omega)]; omega
+      have h2 : r + c - 1 = (r - 1) + c := by omega
+      rw [h1, h2, Nat.add_div_right _ hcpos]
+      exact Nat.lt_succ_self _
+
+theorem sum_map_lt {α : Type} (f g : α → Nat) : ∀ (l : List α), (∀ x ∈ l, g x ≤ f x) → (∃ x ∈ l, g x < f x) →
+    (l.map g).sum < (l.map f).sum := by
+  intro l
+  induction l with
+  | nil => intro _ ⟨x, hx, _⟩; cases hx
+  | cons a l ih =>
+    intro hle ⟨x, hx, hlt⟩
+    simp only [List.map_cons, List.sum_cons]
+    have ha := hle a List.mem_cons_self
+    have hl : (l.map g).sum ≤ (l.map f).sum := by
+      clear ih hx hlt
+      induction l with
+      | nil => exact Nat.le_refl _
+      | cons b l ih2 =>
+        simp only [List.map_cons, List.sum_cons]
+        have := hle b (List.mem_cons_of_mem _ List.mem_cons_self)
+        have := ih2 (fun y hy => by
+          rcases List.mem_cons.mp hy with rfl | hy
+          · exact ha
+          · exact hle y (List.mem_cons_of_mem _ (List.mem_cons_of_mem _ hy)))
+        omega
+    rcases List.mem_cons.mp hx with rfl | hx
+    · omega
+    · have := ih (fun y hy => hle y (List.mem_cons_of_mem _ hy)) ⟨x, hx, hlt⟩
+      omega
+
+theorem rearmUpd_steps_le (id key : Nat) (x : SEntry) :
+    rearmSteps (rearmUpd id key x).remainder ≤ rearmSteps x.remainder := by
+  unfold rearmUpd
+  split
+  · exact rearmSteps_le x.remainder
+  · exact Nat.le_refl _
+
+theorem rearmUpd_steps_lt (key : Nat) (en : SEntry) (h0 : en.remainder ≠ 0) :
+    rearmSteps (rearmUpd en.id key en).remainder < rearmSteps en.remainder := by
+  unfold rearmUpd
+  rw [if_pos (by simp)]
+  exact rearmSteps_lt en.remainder h0
+
+theorem rearm_inflight_of_some {s s2 : St} {now : Nat} {en : SEntry} (hr : rearm s now en = some s2) :
+    ∃ key, s2.inflight = s.inflight.map (rearmUpd en.id key) := by
+  rcases rearm_cases s now en with ⟨_, he⟩ | ⟨q', key, w, _, he⟩
+  · rw [he] at hr; cases hr
+  · rw [he] at hr; cases hr; exact ⟨key, rfl⟩
+
+theorem rearm_budget {s s2 : St} {now : Nat} {en : SEntry} (hmem : en ∈ s.inflight) (h0 : en.remainder ≠ 0)
+    (hr : rearm s now en = some s2) : rearmBudget s2 < rearmBudget s := by
+  obtain ⟨key, hk⟩ := rearm_inflight_of_some hr
+  unfold rearmBudget
+  rw [hk]
+  simp only [List.map_map, Function.comp_def]
+  exact sum_map_lt (fun x => rearmSteps x.remainder) (fun x => rearmSteps (rearmUpd en.id key x).remainder) s.inflight
+    (fun x _ => rearmUpd_steps_le en.id key x) ⟨en, hmem, rearmUpd_steps_lt key en h0⟩
+
+/-- a `continue` (re-arm) strictly decreases the budget -/
+theorem expireStep_budget (s : St) (now : Nat) (h : (expireStep s now).2 = none) :
+    rearmBudget (expireStep s now).1 < rearmBudget s := by
+  have hs := expireStep_shape s now
+  revert hs h; generalize expireStep s now = p; intro h hs
+  obtain ⟨s', r⟩ := p
+  dsimp only at hs h ⊢
+  subst h
+  cases hs with
+  | rearmed q e en s2 hp hf h0 hr =>
+    have hmem : en ∈ s.inflight := by unfold findEntry at hf; exact List.mem_of_find?_eq_some hf
+    exact rearm_budget (s := { s with timers := q }) hmem h0 hr
+
+theorem NS_pollExpiredLoop (now : Nat) : ∀ (fuel : Nat) (s : St), rearmBudget s < fuel → NS s →
+    NS (pollExpiredLoop fuel s now).1 := by
+  intro fuel
+  induction fuel with
+  | zero => intro s hb; omega
+  | succ n ih =>
+    intro s hb h
+    rw [pollExpiredLoop_succ]
+    have h1 := NS_expireStep now h
+    have h2 := expireStep_budget s now
+    revert h1 h2
+    generalize expireStep s now = p
+    intro h1 h2
+    rcases p with ⟨s', r⟩
+    cases r with
+    | some r => exact h1
+    | none => exact ih s' (by have := h2 rfl; simp only at this; omega) h1
+
+/-- **Fuel adequacy.**  With more fuel than re-arms are left, the loop of `poll_expired` ends in an
+iteration that returns (it never takes the out-of-fuel exit): the result is that of one `expireStep`,
+from a state `s2` reached by re-arms only. -/
+theorem pollExpiredLoop_last (now : Nat) : ∀ (fuel : Nat) (s : St), rearmBudget s < fuel →
+    ∃ s2 r, (expireStep s2 now).2 = some r ∧ pollExpiredLoop fuel s now = ((expireStep s2 now).1, r) := by
+  intro fuel
+  induction fuel with
+  | zero => intro s hb; omega
+  | succ n ih =>
+    intro s hb
+    rw [pollExpiredLoop_succ]
+    have h2 := expireStep_budget s now
+    rcases hp : expireStep s now with ⟨s', r⟩
+    rw [hp] at h2
+    cases r with
+    | some r => exact ⟨s, r, by rw [hp], by rw [hp]⟩
+    | none => exact ih s' (by have := h2 rfl; simp only at this; omega)
+
+theorem pollExpired_last (s : St) (now : Nat) (hne : s.timers.isEmpty = false) :
+    ∃ s2 r, (expireStep s2 now).2 = some r ∧ pollExpired s now = ((expireStep s2 now).1, r) := by
+  unfold pollExpired
+  rw [if_neg (by simp [hne])]
+  exact pollExpiredLoop_last now _ s (by rw [expireFuel_eq]; omega)
+
 theorem NS_pollExpired {s : St} (now : Nat) (h : NS s) : NS (pollExpired s now).1 := by
   unfold pollExpired; split
   · exact h
-  · split
-    · simp only; split
-      · exact NS_abortExec _ (NS_of_obs h rfl)
-      · exact NS_of_obs h rfl
-    · exact NS_of_obs h rfl
-    · exact NS_of_obs h rfl
+  · exact NS_pollExpiredLoop now _ s (by rw [expireFuel_eq]; omega) h
 
 theorem NS_startRequest {s : St} (now id d : Nat) (tr : Trace) (b : Nat) (h : NS s) :
     NS (startRequest s now id d tr b).1 := by
@@ -1582,18 +1773,53 @@ theorem cancelRequest_len (s : St) (id : Nat) : (cancelRequest s id).1.timers.le
 theorem pollExpired_len (s : St) (now : Nat) :
     (pollExpired s now).1.timers.len ≤ s.timers.len ∧
       ((pollExpired s now).2 = .ready → (pollExpired s now).1.timers.len < s.timers.len) := by
+  have hstep : ∀ s : St, (expireStep s now).1.timers.len ≤ s.timers.len ∧
+      ((expireStep s now).2 = some .ready → (expireStep s now).1.timers.len < s.timers.len) := by
+    intro s
+    have hs := expireStep_shape s now
+    revert hs; generalize expireStep s now = p; intro hs
+    obtain ⟨s', r⟩ := p
+    dsimp only at hs ⊢
+    cases hs with
+    | idleNone q hp => exact ⟨DelayQ.pollExpired_len_le hp, fun h => by cases h⟩
+    | idlePending q hp => exact ⟨DelayQ.pollExpired_len_le hp, fun h => by cases h⟩
+    | orphan q e hp hf => have := DelayQ.pollExpired_len_lt hp; exact ⟨Nat.le_of_lt this, fun _ => this⟩
+    | abort q e en hp hf h0 =>
+      have := DelayQ.pollExpired_len_lt hp
+      simp only [abortExec_timers]; exact ⟨Nat.le_of_lt this, fun _ => this⟩
+    | rearmed q e en s2 hp hf h0 hr =>
+      have := DelayQ.pollExpired_len_lt hp
+      rcases rearm_cases { s with timers := q } now en with ⟨_, he⟩ | ⟨q', key, w, hi, he⟩
+      · rw [he] at hr; cases hr
+      · rw [he] at hr; cases hr
+        have hl := DelayQ.insert_len hi
+        simp only at hl ⊢
+        exact ⟨by omega, fun h => by cases h⟩
+    | panicked q e en hp hf h0 hr =>
+      simp only [emit_timers]; exact ⟨Nat.le_refl _, fun h => by cases h⟩
+  have hloop : ∀ (fuel : Nat) (s : St), (pollExpiredLoop fuel s now).1.timers.len ≤ s.timers.len ∧
+      ((pollExpiredLoop fuel s now).2 = .ready → (pollExpiredLoop fuel s now).1.timers.len < s.timers.len) := by
+    intro fuel
+    induction fuel with
+    | zero => intro s; rw [pollExpiredLoop_zero]; exact ⟨by simp, fun h => by cases h⟩
+    | succ n ih =>
+      intro s
+      rw [pollExpiredLoop_succ]
+      have h1 := hstep s
+      revert h1; generalize expireStep s now = p; intro h1
+      rcases p with ⟨s', r⟩
+      cases r with
+      | some r =>
+        dsimp only at h1 ⊢
+        exact ⟨h1.1, fun h => h1.2 (by rw [h])⟩
+      | none =>
+        dsimp only at h1 ⊢
+        have h2 := ih s'
+        exact ⟨by omega, fun h => by have := h2.2 h; omega⟩
   unfold pollExpired
   split
   · exact ⟨Nat.le_refl _, fun h => by cases h⟩
-  · split
-    · next q e heq =>
-      have := DelayQ.pollExpired_len_lt heq
-      simp only
-      split
-      · simp only [abortExec_timers]; exact ⟨Nat.le_of_lt this, fun _ => this⟩
-      · exact ⟨Nat.le_of_lt this, fun _ => this⟩
-    · next q heq => exact ⟨DelayQ.pollExpired_len_le heq, fun h => by cases h⟩
-    · next q heq => exact ⟨DelayQ.pollExpired_len_le heq, fun h => by cases h⟩
+  · exact hloop _ s
 
 theorem tNext_inbound (s : St) :
     (tNext s).1.t.inbound.length ≤ s.t.inbound.length ∧
@@ -2373,15 +2599,27 @@ theorem fails_of_obs {s s' : St} (h : s'.obs = s.obs) : fails s' = fails s := by
   · rfl
   · simp only [fails_removeTimer, fails_abortExec]; rfl
 
-@[simp] theorem fails_pollExpired (s : St) (now : Nat) : fails (pollExpired s now).1 = fails s := by
-  unfold pollExpired; split
+theorem fails_rearm {s s2 : St} {now : Nat} {en : SEntry} (hr : rearm s now en = some s2) : fails s2 = fails s := by
+  rcases rearm_cases s now en with ⟨_, he⟩ | ⟨q, key, w, _, he⟩ <;> rw [he] at hr <;> cases hr
+  cases w
   · rfl
-  · split
-    · simp only; split
-      · simp only [fails_abortExec]; rfl
-      · rfl
-    · rfl
-    · rfl
+  · exact fails_wakeServer s
+
+@[simp] theorem fails_pollExpired (s : St) (now : Nat) : fails (pollExpired s now).1 = fails s := by
+  refine pollExpired_ind (P := fun s' => fails s' = fails s) now (fun s1 h => ?_) (fun s1 h => ?_) s rfl
+  · rw [fails_emit]; exact h
+  · rw [← h]
+    have hs := expireStep_shape s1 now
+    revert hs; generalize expireStep s1 now = p; intro hs
+    obtain ⟨s', r⟩ := p
+    dsimp only at hs ⊢
+    cases hs with
+    | idleNone q hp => rfl
+    | idlePending q hp => rfl
+    | orphan q e hp hf => rfl
+    | abort q e en hp hf h0 => simp only [fails_abortExec]; rfl
+    | rearmed q e en s2 hp hf h0 hr => rw [fails_rearm hr]; rfl
+    | panicked q e en hp hf h0 hr => rw [fails_emit]; rfl
 
 @[simp] theorem fails_startRequest (s : St) (now id d : Nat) (tr : Trace) (b : Nat) :
     fails (startRequest s now id d tr b).1 = fails s := by
